@@ -34,5 +34,19 @@ HARNESSES.append(H("close_frees", "C16/close_frees.c", link=["common"], stubs=["
 for h in oc_harnesses():
     h.tiers = ("thorough",)      # whole-parser + close leak check: does not finish within the quick budget (see DESIGN)
     HARNESSES.append(h)
+def alac_harnesses():
+    out = []
+    for faulty, ch, npk in ((0, 1, 0), (0, 1, 1), (0, 2, 2), (1, 1, 1), (1, 1, 0)):
+        d = {"CH_FIXED": ch, "NPK_FIXED": npk, "LIBSNDFILE_VERIF_ALAC_BYTE_BUFFER_SIZE": 256, "MF_CAP": 160, "MF_MAXIO": 64, "SNP_MAX": 40, "PSF_MEMSET_MAX": 64, "LIBSNDFILE_VERIF_BUFFER_LEN": 64, "ENC_MAX": 40, "SM_MAXIO": 64}
+        if faulty: d["MF_FAULTY"] = 1
+        out.append(H("alac.close.ch%d.pk%d" % (ch, npk) + (".faulty" if faulty else ""), "L3/alac_close.c", link=["common", "chunk"], stubs=["psf_log_printf", "psf_memset"], defines=d,
+                     unwind=8, unwindset=["psf_fread.0:65", "psf_fwrite.0:65", "psf_memset.0:65", "snprintf.0:41", "snprintf.1:41", "strlen.0:70", "psf_rand_int32.0:34",
+                                          "fread.0:65", "alac_close.0:4", "memset.0:50", "main.0:8"],
+                     checks="leak", fsa=240, include_env=("log_stub", "memfile", "memset_model", "snprintf_model", "clock_model", "stdio_model"), timeout=300,
+                     functions=["alac_init", "alac_writer_init", "psf_open_tmpfile", "alac_close", "alac_encode_block", "alac_pakt_append", "alac_pakt_encode", "psf_save_write_chunk", "psf_close"],
+                     bounds="%d channel(s), packet buffer shrunk to 256 bytes per channel (hook), %d packet(s) of 0..40 bytes already spooled, 0..3 frames pending; spool-file creation may fail, every spool write may be short"
+                            % (ch, npk) + ("; every output write/seek may fail (fault schedule)" if faulty else "")))
+    return out
+HARNESSES += alac_harnesses()
 HARNESSES += [h for h in _load("C14").HARNESSES if h.name == "fileio.ownership"]
 META = {"assumptions": ["E-memfile", "allocation never fails (failure of malloc itself is outside this harness)"], "outside": ["setters + close (H3)", "ALAC temp file, SD2 resource fork"]}
